@@ -1372,6 +1372,25 @@ fn draw_storm(rng: &mut Rng) -> (Vec<StormBlob>, bool) {
 
 pub fn c03_run(seed: u64, i: u64, tier: Tier, mon: &mut Mon, found: &mut Vec<Found>) {
     let mut rng = Rng::new(run_seed(seed, TAG_C03, i));
+    // Every twelfth run index walks through all inputs of one and two bytes in
+    // order (256 + 65536 of them): the quick tier covers the whole of those two
+    // spaces (under a drawn option set, source and history) instead of a sample.
+    if i % 12 == 0 && (i / 12) < 256 + 65536 {
+        let n = (i / 12) as usize;
+        let input = if n < 256 { vec![n as u8] } else { vec![((n - 256) >> 8) as u8, ((n - 256) & 0xFF) as u8] };
+        let opts_ix = if rng.chance(1, 2) { rng.below(u64::from(opts::N_PARSE)) as u32 } else { opts::draw_parse(&mut rng) };
+        mon.tiny(&input);
+        mon.opts_seen(opts_ix);
+        mon.count("c03.enumerated_tiny_inputs");
+        let valid = std::str::from_utf8(&input).is_ok();
+        let nfaults = if rng.chance(1, 3) { 1 } else { 0 };
+        let source = draw_source(&mut rng, input.len(), valid, nfaults);
+        let (ops, drain) = draw_ops(&mut rng, 3, false);
+        let case = HistCase { opts: opts_ix, source, workload: Workload::Any { input }, ops, then_drain: drain.or(Some(Op::NextValue)) };
+        run_and_collect(case, mon, found);
+        mon.count("scenarios");
+        return;
+    }
     let family = rng.below(100);
     match family {
         0..=79 => {
